@@ -74,6 +74,21 @@ fn main() {
     });
     let mut sink = sink;
     sink.merge(grid);
+    // enumerated fields in combination: the hello messages over version x magic random x session id x cipher kind x
+    // all 256 compression ids x extension block (the well-formed ones; the others belong to C03/C04)
+    for (server, dtls) in [(true, false), (false, false), (true, true), (false, true)] {
+        let t: &'static Target = if dtls { &DTLS_HANDSHAKE } else { &MSG_HANDSHAKE };
+        let sg = par_run(run.threads, 64, |c, sink| {
+            for w in vcommon::catalogue::hello_grid(server, dtls, run.tier == Tier::Thorough, c, 64) {
+                if !matches!((t.reference)(&w.buf), Ref::Must(..)) {
+                    continue;
+                }
+                let (g, _) = check_case(run.prop, t, &w.buf, sink);
+                sink.count("hello field grid", if g.is_ok() { "accepted" } else { "REJECTED" });
+            }
+        });
+        sink.merge(sg);
+    }
     // records that look like SSLv2-compatible hellos / other protocols are records like any other for the envelope parsers
     let foreign = vcommon::catalogue::foreign_protocols();
     let sf = par_run(run.threads, foreign.len(), |i, sink| {
@@ -91,7 +106,7 @@ fn main() {
     cov.insert("exhaustive".into(), json!(true));
     cov.insert("fields".into(), json!(fs.iter().filter(|f| f.bits > 0).map(|f| json!({"field": f.name, "values": 1u32 << f.bits, "entry_points": f.targets.iter().map(|t| t.name).collect::<Vec<_>>()})).collect::<Vec<_>>()));
     cov.insert("rule".into(), json!(
-        "for each enumerated field that does not select the structure being parsed: an otherwise well-formed enclosing structure with the field ranging over its entire domain (256 or 65536 values; both axes for two-byte pairs), parsed through every entry point exposing the field; oracle: accepted, and the whole decoded value equals the strict reference decode (the field equals the wire value, nothing else changes). Plus, for the raw / encrypted record envelope, the grid of every content type x 12 versions x every high byte of the declared length (complete records). Distinct by construction; non-trivial: every case"));
+        "for each enumerated field that does not select the structure being parsed: an otherwise well-formed enclosing structure with the field ranging over its entire domain (256 or 65536 values; both axes for two-byte pairs), parsed through every entry point exposing the field; oracle: accepted, and the whole decoded value equals the strict reference decode (the field equals the wire value, nothing else changes). Plus, for the raw / encrypted record envelope, the grid of every content type x 12 versions x every high byte of the declared length (complete records). Plus the hello messages (TLS and DTLS, client and server) over version x 7 randoms (HelloRetryRequest value, downgrade sentinels) x 2 session ids x 60 cipher kinds x 5 (thorough: all 256) compression ids x 4 extension blocks. Distinct by construction; non-trivial: every case"));
     let code = run.finish(
         &sink,
         cov,
